@@ -78,6 +78,11 @@ FLOORS = {
                  "drv_server_socket_lockstep": 8000,
                  "shape_v1": 5000, "shape_v2": 5000, "shape_v3": 5000, "shape_body_over_64k": 500, "shape_stream": 2500,
                  "shape_stream_error": 1500, "shape_readv": 2500,
+                 "shape_rejected_body": 4000, "drv_rejected_body_stingy": 8000, "drv_rejected_body_pipe_loop": 12000,
+                 "drv_rejected_body_socket_lockstep": 3500, "oracle_read_size_rejected_body_direct": 120000,
+                 "oracle_read_size_rejected_body_pipe_loop": 2000000, "oracle_follow_up_answered_after_rejected_body": 25000,
+                 "handler_raised:bytes_part_received@end": 25000, "handler_raised:byte_part_received@end": 2000,
+                 "handler_raised:structure_part_received@end": 2000,
                  "e2e_requests": 150, "e2e_responses_complete": 150},
 }
 RUST = []   # the wire codec is pure Python; its compiled helpers live in third-party wheels (see ASSUMPTIONS)
